@@ -39,6 +39,9 @@ CHECKS = {
  'C15': dict(engine='cases', tech='TLA+ reference of transformed data tensors (spec/Transform.tla: leaves per layout, exact integer tensor and Gram matrix computed by TLC; CalcBase family expressions), configurations enumerated by TLC, replay against basis_decomposition / coordinate_major / function_major / gram / hocur',
              text='TLC enumerates dimension, snapshot count (incl. 1), modes, function lists (incl. single-function modes, indicator and transcendental mixtures), the three layouts with add_one on/off and Gram pairs, and computes the exact tensor for integer bases; the library train, every single core, the Gram matrix and the HOCUR result (ranks = #snapshots, int and re-used list form) are compared.',
              note='trusted: TLC, harness/evaluator.py for transcendental leaves (cross-checked against TLC on exact cases); known finding F11 (HOCUR candidate deficiency) is classified by an explicit rank test of the documented initial candidate columns', ref='§5 C15'),
+ 'C07': dict(engine='cases', tech='TLA+ islands for linear systems (spec/LinSolve.tla: A = G^H G + cI with exact TT cores via the core algebra of TTBase, planted full-rank solution, b = A xs exact; model-level invariants b = A xs, A Hermitian), rank profiles enumerated by TLC; replay of sle.als / sle.mals with the solver contract',
+             text='TLC enumerates mode sizes, operator ranks, real/complex data and every admissible rank profile of planted solution and guess, and constructs the exact integer cores of A, xs, b, x0; the real solvers (both micro-solvers, repeats 0..3, MALS rank caps) must return the planted solution from the exact and from maximal-rank guesses, never increase the energy error, respect dims and rank bounds and leave their arguments unchanged.',
+             note='trusted: TLC core algebra, numpy evaluation of the energy from exact dense A and xs; guesses restricted to full-rank interfaces', ref='§5 C07'),
 }
 NA_REASON = 'check not built yet (work in progress)'
 
